@@ -298,6 +298,10 @@ def build_item(spec: dict, sections: dict, substs: list, defines: set, log: list
             edits.append(Edit(off, off, sections[('tail',)].rstrip() + '\n', 'tail'))
         lo_t, hi_t = it.open_tok, it.close_tok
         _rewrite_r2_r4(it, rewrites, edits, applied, relfile, lo_t, hi_t)
+        if any(k[0] == 'closure' for k in sections) and not twin:
+            head = _hoist_closures(it, sections, edits, applied, relfile) + head
+        elif any(k[0] == 'closure' for k in sections):
+            _hoist_closures(it, sections, edits, [], relfile)
         # ---- R10: RECV.nth(ARG) -> __iter_nth(RECV, ARG)
         if 'R10' in rewrites:
             for j in range(lo_t, hi_t):
@@ -348,8 +352,63 @@ def build_item(spec: dict, sections: dict, substs: list, defines: set, log: list
     return text, [(relfile, o) for o in origins], info
 
 
+def _rewrite_r12(it, rewrites, edits, applied, relfile, lo_t, hi_t):
+    """R12: `quote! { TOKENS }` (no interpolation) -> `__quote("TOKENS")`: an opaque token-stream constructor
+    that carries the literal token text (proc_macro2 is not available to the verifier)."""
+    toks, src = it.toks, it.src
+    j = lo_t
+    while j < hi_t:
+        if toks[j].kind == 'ident' and toks[j].text == 'quote' and toks[j + 1].text == '!' and toks[j + 2].text in ('{', '('):
+            c = rsx.match_close(toks, j + 2)
+            inner = [t.text for t in toks[j + 3:c]]
+            if '#' in inner:
+                raise LostAnchor(f'{relfile}:{it.line_of(toks[j].start)}: quote! with interpolation cannot be rewritten by R12')
+            text = ' '.join(inner).replace('\\', '\\\\').replace('"', '\\"')
+            edits.append(Edit(toks[j].start, toks[c].end, f'__quote("{text}")', 'R12'))
+            applied.append(f'R12 {relfile}:{it.line_of(toks[j].start)}: `quote! {{ {" ".join(inner)} }}` -> `__quote("{text}")`')
+            j = c + 1
+        else:
+            j += 1
+
+
+def _hoist_closures(it, sections, edits, applied, relfile):
+    """R13: `let NAME = |PARAMS| BODY;` (capture-free, named in a //@closure section) -> a separate fn NAME."""
+    toks, src = it.toks, it.src
+    hoisted = ''
+    names = [k[1] for k in sections if k[0] == 'closure']
+    for name in names:
+        found = False
+        j = it.open_tok + 1
+        while j < it.close_tok:
+            if (toks[j].text == 'let' and toks[j + 1].text == name and toks[j + 2].text == '=' and toks[j + 3].text == '|'):
+                k = j + 4
+                while toks[k].text != '|':
+                    k += 1
+                params = src[toks[j + 4].start:toks[k - 1].end]
+                # body runs to the ';' at this nesting depth
+                m = k + 1
+                while toks[m].text != ';':
+                    if toks[m].text in ('(', '[', '{'):
+                        m = rsx.match_close(toks, m)
+                    m += 1
+                body = src[toks[k + 1].start:toks[m - 1].end]
+                ret = sections[('closure_ret', name)]
+                contract = sections[('closure', name)].rstrip()
+                hoisted += (f'fn {name}({params}) -> (r: {ret})\n{contract}\n{{\n    {body}\n}}\n\n')
+                edits.append(Edit(toks[j].start, toks[m].end, f'/* closure `{name}` hoisted (R13) */', 'R13'))
+                applied.append(f'R13 {relfile}:{it.line_of(toks[j].start)}: capture-free closure `let {name} = |{params}| ..;` hoisted to `fn {name}({params}) -> {ret}`')
+                found = True
+                break
+            j += 1
+        if not found:
+            raise LostAnchor(f'{relfile}: closure `let {name} = |..| ..;` not found in {it.name}')
+    return hoisted
+
+
 def _rewrite_r2_r4(it, rewrites, edits, applied, relfile, lo_t, hi_t, r2_to='assert'):
     toks, src = it.toks, it.src
+    if 'R12' in rewrites:
+        _rewrite_r12(it, rewrites, edits, applied, relfile, lo_t, hi_t)
     if 'R2' in rewrites or 'R2K' in rewrites:
         for j in range(lo_t, hi_t):
             if toks[j].kind == 'ident' and toks[j].text == 'debug_assert' and toks[j + 1].text == '!':
@@ -525,6 +584,11 @@ def assemble(template: str, defines: set | None = None) -> Assembled:
                 m = re.match(r'//@(loop|loop_body|before_loop|after_loop)\s+(\d+)\s*$', s2)
                 if m:
                     cur = (m.group(1), int(m.group(2))); sections[cur] = ''
+                    continue
+                m = re.match(r'//@closure\s+(\w+)\s+(\S+)\s*$', s2)
+                if m:
+                    cur = ('closure', m.group(1)); sections[cur] = ''
+                    sections[('closure_ret', m.group(1))] = m.group(2)
                     continue
                 m = re.match(r'//@subst\s+(\S+)\s+(\S+)\s*$', s2)
                 if m:
